@@ -950,6 +950,7 @@ func main() {
 	mon.Floor("cli:outcome:ok", 50)
 	mon.Floor("exh:alignments", exhCount())
 	mon.Floor("hist:steps", 5000)
+	mon.Floor("cli-multi:ok", 40)
 	mon.Main("C15", []mon.Sub{
 		{Name: "witness", Quick: len(witnesses) + 3, Thorough: len(witnesses) + 3, Run: runWitness},
 		{Name: "exh", Quick: exhCount(), Thorough: exhCount(), Run: runExh},
@@ -958,5 +959,6 @@ func main() {
 		{Name: "occ", Quick: 4000, Thorough: 50000, Run: runOcc},
 		{Name: "hist", Quick: 6000, Thorough: 150000, Run: runHist},
 		{Name: "cli", Quick: 160, Thorough: 1500, Serial: true, Run: runCli},
+		{Name: "cli-multi", Quick: 90, Thorough: 900, Run: runCliMulti},
 	})
 }
